@@ -358,6 +358,9 @@ def run_check(prop, tier, seed):
         for v in r["viol"]:
             if v["prop"] in (prop, "*"):
                 rep.violate(v["mechanism"], v["message"], {"case": v["case"], "borehole": v["borehole"], "month": v.get("month")})
+    from vf.props import pool_common as _PC
+
+    _PC.add_workload_monitor_results(rep, prop, tier, seed)
     rep.extra["load_families"] = fams
     rep.extra["distinct_horizons"] = len(horizons)
     rep.extra["horizon_residues_mod_12"] = sorted({h % 12 for h in horizons})
